@@ -141,7 +141,9 @@ var catalogue = []mutation{
 		copy(t[0:32], b32(r))
 		u := t
 		u[64] |= 2
-		return []cipher.Sig{t, u}, true
+		w := t
+		w[64] &^= 2 // r+n spelled out, overflow bit dropped: the same abscissa as (r, recid|2)
+		return []cipher.Sig{t, u, w}, true
 	}},
 	{"recid^1", func(g *gen, s cipher.Sig) ([]cipher.Sig, bool) { t := s; t[64] ^= 1; return []cipher.Sig{t}, true }},
 	{"recid|2", func(g *gen, s cipher.Sig) ([]cipher.Sig, bool) { t := s; t[64] |= 2; return []cipher.Sig{t}, true }},
@@ -285,6 +287,109 @@ func run(args []string) error {
 			return err
 		}
 	}
+	// ---- abscissae in [n, p): a signature (r, s, recid 2|3) with tiny r stands for the nonce point with
+	//      x = r + n.  Its re-encoding (r + n, s, recid 0|1) names the same point and must be refused
+	//      (r >= n).  No key is needed: the signature recovers SOME key, which plays the signer.
+	craftedRN := func(h cipher.SHA256) (cipher.PubKey, cipher.Sig, bool) {
+		for tries := 0; tries < 200; tries++ {
+			var sig cipher.Sig
+			r := big.NewInt(int64(1 + g.r.Intn(1<<20)))
+			if g.r.Chance(30) { // just below p - n
+				r = new(big.Int).Sub(new(big.Int).Sub(bigP, bigN), big.NewInt(int64(1+g.r.Intn(5000))))
+			}
+			copy(sig[0:32], b32(r))
+			s := new(big.Int).SetBytes(g.r.Bytes(32))
+			s.Rsh(s, 1) // bit 255 clear
+			if s.Sign() == 0 || s.Cmp(bigN) >= 0 {
+				continue
+			}
+			copy(sig[32:64], b32(s))
+			sig[64] = byte(2 + g.r.Intn(2))
+			pk, err := cipher.PubKeyFromSig(sig, h)
+			if err != nil {
+				continue
+			}
+			if cipher.VerifyPubKeySignedHash(pk, sig, h) != nil {
+				continue
+			}
+			return pk, sig, true
+		}
+		return cipher.PubKey{}, cipher.Sig{}, false
+	}
+	for i := 0; i < n/2+3; i++ {
+		var h cipher.SHA256
+		copy(h[:], g.r.Bytes(32))
+		pk, sig, ok := craftedRN(h)
+		if !ok {
+			hist.Add("rn:not-constructible")
+			continue
+		}
+		if err := sigRole("rn", h, pk, sig); err != nil {
+			return err
+		}
+	}
+	// the same in the block role (self-made publisher key) and in Transaction.Verify (which checks each
+	// signature with VerifySignatureRecoverPubKey only: the weakest place a re-encoded signature could pass)
+	for i := 0; i < 3; i++ {
+		_, pk2 := g.key()
+		blk, err := coin.NewGenesisBlock(cipher.AddressFromPubKey(pk2), 1e6, uint64(g.r.Intn(1<<31)))
+		if err != nil {
+			return err
+		}
+		pk, sig, ok := craftedRN(blk.HashHeader())
+		if ok {
+			sb := coin.SignedBlock{Block: *blk, Sig: sig}
+			for _, keepBit := range []bool{false, true} {
+				t := sb
+				copy(t.Sig[0:32], b32(new(big.Int).Add(rOf(sig), bigN)))
+				if !keepBit {
+					t.Sig[64] &^= 2
+				}
+				err := t.VerifySignature(pk)
+				emit("rn", "nop", []string{"-"}, "-", map[string]interface{}{
+					"role": "block", "mutation": "r+n", "accepted": yn(err == nil), "same": "no", "in_window": "no",
+					"original": hx(encoder.Serialize(sb)), "mutated": hx(encoder.Serialize(t)), "pubkey": hx(pk[:]), "check": "SignedBlock.VerifySignature"})
+				hist.Add("rn:block:r+n:" + yn(err == nil))
+			}
+		}
+		// Transaction.Verify
+		var txn coin.Transaction
+		var src cipher.SHA256
+		copy(src[:], g.r.Bytes(32))
+		if err := txn.PushInput(src); err != nil {
+			return err
+		}
+		if err := txn.PushOutput(cipher.AddressFromPubKey(pk2), 1e6, 1); err != nil {
+			return err
+		}
+		txn.InnerHash = txn.HashInner()
+		_, sig2, ok2 := craftedRN(cipher.AddSHA256(txn.InnerHash, txn.In[0]))
+		if ok2 {
+			txn.Sigs = []cipher.Sig{sig2}
+			if err := txn.UpdateHeader(); err != nil {
+				return err
+			}
+			if err := txn.Verify(); err != nil {
+				return fmt.Errorf("crafted transaction does not pass Transaction.Verify: %v", err)
+			}
+			orig := txn.MustSerialize()
+			for _, keepBit := range []bool{false, true} {
+				t := txn
+				t.Sigs = []cipher.Sig{sig2}
+				copy(t.Sigs[0][0:32], b32(new(big.Int).Add(rOf(sig2), bigN)))
+				if !keepBit {
+					t.Sigs[0][64] &^= 2
+				}
+				var verr error
+				pan := Guard(func() { verr = t.Verify() })
+				emit("rn", "nop", []string{"-"}, "-", map[string]interface{}{
+					"role": "transaction (Transaction.Verify only)", "mutation": "r+n", "accepted": yn(!pan && verr == nil), "same": "no", "in_window": "no",
+					"original": hx(orig), "mutated": hx(t.MustSerialize()), "check": "Transaction.Verify"})
+				hist.Add("rn:txn.Verify:r+n:" + yn(!pan && verr == nil))
+			}
+		}
+	}
+
 	// the witness of Properties/C10.v high_s_accepted_refuted: msg = 01..01, r = 1, s = halfOrder + 1, recid 0
 	{
 		var h cipher.SHA256
